@@ -79,6 +79,16 @@ class SymArray(np.ndarray):
             res = np.frompyfunc(f, ufunc.nin, 1)(*ins)
         elif name == "matmul" and method == "__call__":
             res = np.matmul(*ins, **kwargs)
+        elif name in ("equal", "not_equal", "less", "less_equal", "greater", "greater_equal") and method == "__call__":
+            # the default OO->? loop would call bool() on every SymBool (one fork per entry)
+            res = ufunc(*[np.asarray(x, dtype=object) if not (isinstance(x, np.ndarray) and x.dtype == object) else x
+                          for x in ins], dtype=object, **kwargs)
+        elif name in ("logical_and", "logical_or") and method == "reduce":
+            ax = kwargs.get("axis", 0)
+            if ins[0].ndim <= 1 or ax is None:
+                res = (_all if name == "logical_and" else _any)(ins[0])
+            else:
+                res = np.apply_along_axis(lambda v: (_all if name == "logical_and" else _any)(v), ax, ins[0])
         else:
             res = getattr(ufunc, method)(*ins, **kwargs)
         if isinstance(res, tuple):
@@ -810,12 +820,24 @@ class Installed:
 
     active = None
 
+    def clear_caches(self):
+        for m in self.modules:
+            for v in list(vars(m).values()):
+                cc = getattr(v, "cache_clear", None)
+                if callable(cc):
+                    try:
+                        cc()
+                    except Exception:
+                        pass
+
     def suspend(self):
+        self.clear_caches()
         for m, k, v in reversed(self.saved):
             self._susp.append((m, k, getattr(m, k)))
             setattr(m, k, v)
 
     def resume(self):
+        self.clear_caches()
         for m, k, v in reversed(self._susp):
             setattr(m, k, v)
         self._susp = []
@@ -824,6 +846,7 @@ class Installed:
         self._susp = []
         self._outer = Installed.active
         Installed.active = self
+        self.clear_caches()
         byid = {}
         for nm, v in self.proxy.__dict__.items():
             orig = getattr(np, nm, None)
@@ -858,6 +881,7 @@ class Installed:
 
     def __exit__(self, *exc):
         Installed.active = self._outer
+        self.clear_caches()
         for m, k, v in reversed(self.saved):
             setattr(m, k, v)
         self.saved = []
